@@ -6,6 +6,7 @@ import (
 	"fmt"
 	"os"
 	"strings"
+	"time"
 
 	"github.com/tikv/client-go/v2/verifx/hub"
 )
@@ -188,7 +189,12 @@ func exhCombo(name string, layout [][]byte, progs []xprog, mode string, limit in
 	retries := 0
 	for {
 		d.depth, d.waits, d.diverged = 0, 0, false
-		w := hub.NewWorld(rec, hub.Options{Control: d, Full: lean, Splits: layout, Seed: 1})
+		settle := 150 * time.Microsecond
+		if len(layout) > 0 {
+			// several regions: one call fans out into parallel batches that reach the gate one after the other
+			settle = 400 * time.Microsecond
+		}
+		w := hub.NewWorld(rec, hub.Options{Control: d, Full: lean, Splits: layout, Seed: 1, Settle: settle})
 		w.Note("exhaustive " + name)
 		w.TrackKey(keyA)
 		w.TrackKey(keyB)
@@ -271,6 +277,9 @@ func runExhaustive(thorough bool) {
 	}
 	total, incomplete, combos := 0, 0, 0
 	do := func(name string, lay xlayout, progs []xprog, mode string, limit int) {
+		if f := os.Getenv("HUB_EXH_FAMILY"); f != "" && f != name {
+			return
+		}
 		var names []string
 		for _, p := range progs {
 			names = append(names, p.name)
